@@ -1482,6 +1482,8 @@ impl Gen {
             Op::Remove { w, h, k } => Op::Remove { w, h: bind(&h), k },
             Op::Exchange { w, h, ks, k, b } => Op::Exchange { w, h: bind(&h), ks, k, b },
             Op::Despawn { w, h } => Op::Despawn { w, h: bind(&h) },
+            Op::SpawnAt { w, h, k, b } => Op::SpawnAt { w, h: bind(&h), k, b },
+            Op::Take { w, h, into } => Op::Take { w, h: bind(&h), into },
             Op::Query { w, q, path, h, n, es } => Op::Query { w, q, path, h: bind(&h), n, es },
             Op::Cont(crate::containers::COp::QInsert { q, h, k, bundle }) => {
                 Op::Cont(crate::containers::COp::QInsert { q, h: bind(&h), k, bundle })
@@ -1556,6 +1558,30 @@ impl Gen {
             exch(self, first);
             ins(self, second);
         }
+        self.plan.push_back(Op::Obs { w });
+    }
+
+    /// scenario: an id is used twice (handles `h1`, then `h2` one generation later), `spawn_at(h1)` winds
+    /// the slot's generation back, and despawning `h1` again leaves the slot dead at exactly `h2`'s
+    /// generation: `h2` is stale although its generation matches, every mutator must say NoSuchEntity
+    fn plan_wound_back(&mut self, w: usize) {
+        let last = |j: usize| HRef::Tab(usize::MAX, j);
+        let (k1, b1) = self.random_bundle();
+        self.plan.push_back(Op::Spawn { w, k: k1, b: b1 });
+        self.plan.push_back(Op::Despawn { w, h: last(0) });
+        let (k2, b2) = self.random_bundle();
+        self.plan.push_back(Op::Spawn { w, k: k2, b: b2 });
+        self.plan.push_back(Op::Despawn { w, h: last(0) });
+        let (k3, b3) = self.random_bundle();
+        self.plan.push_back(Op::SpawnAt { w, h: last(1), k: k3, b: b3 });
+        self.plan.push_back(Op::Despawn { w, h: last(0) });
+        // (`spawn_at` registered its handle again, so the stale `h2` is now second from last)
+        self.plan.push_back(Op::Remove { w, h: last(1), k: 1 + self.rng.below(9) });
+        let (k4, b4) = self.random_bundle();
+        self.plan.push_back(Op::Insert { w, h: last(1), k: k4, b: b4 });
+        let (k5, b5) = self.random_bundle();
+        self.plan.push_back(Op::Exchange { w, h: last(1), ks: 1 + self.rng.below(4), k: k5, b: b5 });
+        self.plan.push_back(Op::Despawn { w, h: last(1) });
         self.plan.push_back(Op::Obs { w });
     }
 
@@ -1978,6 +2004,12 @@ impl Gen {
         let w = if nworlds > 1 && self.rng.chance(25) { 1 } else { 0 };
         if matches!(self.profile, Profile::Mixed | Profile::Containers) && self.rng.chance(2) {
             self.plan_pb_roles(ctx, w);
+            if let Some(op) = self.plan.pop_front() {
+                return Self::bind_last(op, ctx);
+            }
+        }
+        if matches!(self.profile, Profile::Mixed | Profile::Reserve | Profile::Malformed) && self.rng.chance(1) {
+            self.plan_wound_back(w);
             if let Some(op) = self.plan.pop_front() {
                 return Self::bind_last(op, ctx);
             }
